@@ -188,8 +188,10 @@ func runC48(c *fw.Ctx) {
 	c.SetRule("P1: files = one of 3 section headers + every body of <= max_body_tokens tokens, and `[s] k =` + every value body (keys, '=', values, quotes, escapes, continuation, comments, blanks, tabs, newlines, a second header); files git refuses are outside the property; go-git's format.Decoder result is compared with `git config --list --null` as variable -> ordered values; P2: every boolean/integer setting go-git interprets x every spelling, against `git config --type=bool|int`; P3: generated Config values -> Marshal -> `git config --list` and go-git ReadConfig; a case is non-trivial when git reports at least one variable; distinct = (part, comparison class, variables, value shape) classes")
 	c.Assume("git 2.39.5 is the judge of which files are valid; includes are excluded from the generated files (they are only the batching vehicle: git parses an included file with the same parser); a transcription of git's parser predicts acceptance for batching only and is replayed against real git on the small space; a valueless key is compared as an empty value in P1 (format.Option cannot express it) and by meaning in P2")
 
-	c48P1(c, g)
-	c48P2(c, g)
+	if os.Getenv("S13_ONLY_NEW") == "" { // development aid: skip the unchanged parts
+		c48P1(c, g)
+		c48P2(c, g)
+	}
 	c48P3(c, g)
 	c48More(c, g)
 }
@@ -839,6 +841,33 @@ func c48P3(c *fw.Ctx, g *fw.Git) {
 		}
 		fails = rest
 	}
+	// a subsection name for which (nearly) every value of a field fails is a
+	// problem of the NAME: one key per (kind, name)
+	{
+		nVals := map[string]int{} // field+sub -> cases
+		for _, cs := range cases {
+			nVals[setters[cs.setter].name+"\x00"+cs.sub]++
+		}
+		cnt := map[string]map[string]bool{}
+		for _, f := range fails {
+			k := f.kind + "\x00" + f.field + "\x00" + f.sub
+			if cnt[k] == nil {
+				cnt[k] = map[string]bool{}
+			}
+			cnt[k][f.val] = true
+		}
+		var rest []p3fail
+		for _, f := range fails {
+			n := nVals[f.field+"\x00"+f.sub]
+			if f.sub != "" && n >= 5 && len(cnt[f.kind+"\x00"+f.field+"\x00"+f.sub])*5 >= n*4 {
+				key := fmt.Sprintf("P3 %s: subsection name %s (every value)", f.kind, fw.Q(f.sub))
+				c.Fail(key, key+" :: "+f.field+" :: "+f.detail, map[string]any{"field": f.field, "subsection": f.sub, "value": f.val, "kind": f.kind, "detail": f.detail})
+				continue
+			}
+			rest = append(rest, f)
+		}
+		fails = rest
+	}
 	perKV := map[string]map[string]bool{}
 	perKFV := map[string]map[string]bool{}
 	for _, f := range fails {
@@ -858,7 +887,8 @@ func c48P3(c *fw.Ctx, g *fw.Git) {
 		var key string
 		if len(perKV[k]) >= 3 {
 			key = fmt.Sprintf("P3 %s: value %s (many fields)", f.kind, fw.Q(f.val))
-		} else if len(perKFV[k+"\x00"+f.field]) == len(validSubs[f.field]) {
+		} else if n := len(perKFV[k+"\x00"+f.field]); n == len(validSubs[f.field]) || (n >= 4 && n*5 >= len(validSubs[f.field])*3) {
+			// (nearly) every name: names that fail for a reason of their own are keyed by the name above
 			key = fmt.Sprintf("P3 %s: %s value %s (every subsection name)", f.kind, f.field, fw.Q(f.val))
 		} else {
 			key = fmt.Sprintf("P3 %s: %s[%s] value %s", f.kind, f.field, fw.Q(f.sub), fw.Q(f.val))
